@@ -927,4 +927,26 @@ theorem spec_msg_failed_call (w : SWorld) (life : Life) (A value : Nat) (kind : 
       | cont w'' lg => simp [SRes.pre, SRes.finish]
       | stop o w'' => cases o <;> simp [SRes.pre, SRes.finish]
 
+/-- spec: a top-level script run through a DELEGATECALL (to any live contract) behaves exactly as
+    the same script run directly, when it returns -/
+theorem spec_delegate_inline (w : SWorld) (life : Life) (A value t dv : Nat) (body : List Op)
+    (l : List Nat) (hA : w.dead A = false) (ht : w.dead t = false)
+    (hok : (specMsg w (Msg.mk life A value body)).1 = (1, l)) :
+    (specMsg w (Msg.mk life A value [.call .delegate t dv body])).1 = (1, 1 :: l) ∧
+    (specMsg w (Msg.mk life A value [.call .delegate t dv body])).2 = (specMsg w (Msg.mk life A value body)).2 := by
+  unfold specMsg at hok ⊢
+  simp only [topCtx, hA, Bool.false_eq_true, if_false] at hok ⊢
+  simp only [specOps, specOp, callValue]
+  simp only [ht, Bool.false_eq_true, if_false, false_and, if_true, reduceCtorEq]
+  generalize (specOps _ _ [] body).finish = R at hok ⊢
+  obtain ⟨o, w'⟩ := R
+  cases o with
+  | ret l' =>
+    simp only [] at hok
+    have : l' = l := by simpa using hok
+    subst this
+    simp [specResume, SRes.finish]
+  | revert l' => simp at hok
+  | fail => simp at hok
+
 end BA.Evm.Storage
